@@ -92,6 +92,9 @@ static CO_ERR COTSyncIdWrite(struct CO_OBJ_T *obj, struct CO_NODE_T *node, void 
         /* SYNC producer activation */
         if (((nid & CO_SYNC_COBID_ON) != 0)) {
             sync->CobId = nid;
+            if (node->Error == CO_ERR_SYNC_RES) {
+                node->Error = CO_ERR_NONE;         /* forget an old refusal */
+            }
             COSyncProdActivate(sync);
             if (node->Error == CO_ERR_SYNC_RES) {
                 /*
